@@ -289,12 +289,14 @@ func (h *hist) walk(full bool) (*pview, []finding) {
 			}
 			e.inOK = false
 			switch {
+			case h.prevPooled[op.Hash]:
+				add("input-missing/parent-was-removed-from-pool", fmt.Sprintf("pooled tx %s spends %s:%d: that tx was pooled at the previous walk and is neither pooled nor confirmed now", e.id, op.Hash, op.Idx), e)
 			case h.confirmed[op.Hash]:
 				add("input-missing/output-of-confirmed-tx-already-spent-or-absent", fmt.Sprintf("pooled tx %s spends %s:%d: that tx is confirmed in the active chain but the output is not in the UTXO set (spent by the chain / never existed)", e.id, op.Hash, op.Idx), e)
 			case h.everConfirmed[op.Hash]:
 				add("input-missing/parent-was-disconnected-by-reorg", fmt.Sprintf("pooled tx %s spends %s:%d: that tx was confirmed in a block that is no longer on the active chain and it is not pooled", e.id, op.Hash, op.Idx), e)
 			case h.everPooled[op.Hash]:
-				add("input-missing/parent-was-removed-from-pool", fmt.Sprintf("pooled tx %s spends %s:%d: that tx was pooled earlier but is neither pooled nor confirmed now", e.id, op.Hash, op.Idx), e)
+				add("input-missing/parent-was-removed-from-pool-earlier", fmt.Sprintf("pooled tx %s spends %s:%d: that tx was pooled earlier but is neither pooled nor confirmed now", e.id, op.Hash, op.Idx), e)
 			default:
 				add("input-missing/parent-neither-confirmed-nor-pooled", fmt.Sprintf("pooled tx %s spends %s:%d which is neither an unspent confirmed output nor an output of a pooled tx", e.id, op.Hash, op.Idx), e)
 			}
